@@ -102,6 +102,12 @@ def generate(rng, tier, index):
     ops.append(["epoch", rng.randrange(W)])
     sc["ops"] = ops
     sc["exact_len"] = rng.random() < 0.25  # epochs consumed by taking exactly len(loader) batches
+    # loader parameters that were not varied before (drawn last): a subset of the utterance ids, data parameters
+    # handed over separately from the loader parameters, normalisation statistics given by the caller
+    n_ = sc["n"]
+    sc["subset"] = sorted(rng.sample(range(n_), rng.randrange(1, n_ + 1))) if sc["kind"] != "bare" and n_ >= 2 and not sc.get("missing") and rng.random() < 0.2 else None
+    sc["split_params"] = rng.random() < 0.3
+    sc["given_stats"] = rng.random() < 0.4
     return sc
 
 
@@ -151,8 +157,31 @@ class Corpus:
         counts_ref = sc["with_ref"] and any(not u["no_ref"] for u in self.all_utts)
         self.utts = [u for u in self.all_utts if not (counts_ali and u["no_ali"]) and not (counts_ref and u["no_ref"])]
 
+    def apply_subset(self):
+        """params.subset_ids: the data set is restricted to these ids (the files of the others stay on disk)."""
+        import random as _r
+
+        sc = self.sc
+        r = _r.Random(sc["salt"])
+        gen_names = [corpus.utt_name(r, i, sc["id_style"]) for i in range(sc["n"])]
+        self.subset_ids = sorted(gen_names[i] for i in sc["subset"])
+        self.on_disk = list(self.utts)
+        self.utts = [u for u in self.utts if u["id"] in set(self.subset_ids)]
+
+    def stats(self):
+        """Normalisation statistics handed to the loader (exact in float32)."""
+        F = self.sc["F"]
+        return torch.tensor([0.5 * (i - 1) for i in range(F)]), torch.tensor([[0.5, 2.0, 4.0][i % 3] for i in range(F)])
+
     def write(self):
         sc = self.sc
+        if getattr(self, "on_disk", None) is not None:
+            kept, self.utts = self.utts, self.on_disk
+            try:
+                self.on_disk = None
+                return self.write()
+            finally:
+                self.utts, self.on_disk = kept, self.utts
         if sc["kind"] != "lang" and sc.get("missing"):
             utts = [dict(u, ali=None if u["no_ali"] else u["ali"], ref=None if u["no_ref"] else u["ref"]) for u in self.all_utts]
             corpus.write_spect_dir(self.dir, utts, prefix=sc["prefix"], suffix=sc["suffix"], with_ali=sc["with_ali"], with_ref=sc["with_ref"])
@@ -187,7 +216,11 @@ class Corpus:
         sc = self.sc
         x = self.utts[idx]["feat"].double().numpy()
         if sc["do_mvn"]:
-            x = corpus.ref_mvn(x)
+            if sc.get("given_stats"):
+                m, sd_ = self.stats()
+                x = corpus.ref_mvn(x, m.double().numpy(), sd_.double().numpy())
+            else:
+                x = corpus.ref_mvn(x)
         if sc["delta_order"]:
             x = corpus.ref_deltas(x, sc["delta_order"])
         return x
@@ -197,32 +230,36 @@ def make_loader(sc, corp, init_epoch):
     from pydrobert.torch import data
 
     common = dict(shuffle=sc["shuffle"], init_epoch=init_epoch, seed=sc["seed"])
+    subset = list(getattr(corp, "subset_ids", None) or [])
+    split = bool(sc.get("split_params"))
+    stats = {}
+    if sc.get("given_stats") and sc["kind"] in ("spect", "ctx"):
+        stats["feat_mean"], stats["feat_std"] = corp.stats()
     if sc["kind"] == "spect":
-        params = data.SpectDataLoaderParams(
-            batch_size=sc["batch_size"], drop_last=sc["drop_last"], num_length_buckets=sc["num_length_buckets"],
-            size_batch_by_length=sc["size_batch_by_length"], sos=sc["sos"], eos=sc["eos"], delta_order=sc["delta_order"], do_mvn=sc["do_mvn"],
-        )
+        dl = dict(batch_size=sc["batch_size"], drop_last=sc["drop_last"], num_length_buckets=sc["num_length_buckets"], size_batch_by_length=sc["size_batch_by_length"])
+        dp = dict(sos=sc["sos"], eos=sc["eos"], delta_order=sc["delta_order"], do_mvn=sc["do_mvn"], subset_ids=subset)
+        # the data parameters either ride along in the loader parameters or are handed over separately
+        params, data_params = (data.DynamicLengthDataLoaderParams(**dl), data.SpectDataParams(**dp)) if split else (data.SpectDataLoaderParams(**dl, **dp), None)
         return data.SpectDataLoader(
-            corp.dir, params, batch_first=sc["batch_first"], sort_batch=sc["sort_batch"], on_uneven_distributed=sc["mode"],
+            corp.dir, params, data_params, batch_first=sc["batch_first"], sort_batch=sc["sort_batch"], on_uneven_distributed=sc["mode"],
             file_prefix=sc["prefix"], file_suffix=sc["suffix"], suppress_alis=sc["suppress_alis"], suppress_uttids=sc["suppress_uttids"],
-            tokens_only=sc["tokens_only"], warn_on_missing=False, **common,
+            tokens_only=sc["tokens_only"], warn_on_missing=False, **stats, **common,
         )
     if sc["kind"] == "lang":
-        params = data.LangDataLoaderParams(
-            batch_size=sc["batch_size"], drop_last=sc["drop_last"], num_length_buckets=sc["num_length_buckets"],
-            size_batch_by_length=sc["size_batch_by_length"], sos=sc["sos"], eos=sc["eos"],
-        )
+        dl = dict(batch_size=sc["batch_size"], drop_last=sc["drop_last"], num_length_buckets=sc["num_length_buckets"], size_batch_by_length=sc["size_batch_by_length"])
+        dp = dict(sos=sc["sos"], eos=sc["eos"], subset_ids=subset)
+        params, data_params = (data.DynamicLengthDataLoaderParams(**dl), data.LangDataParams(**dp)) if split else (data.LangDataLoaderParams(**dl, **dp), None)
         return data.LangDataLoader(
-            corp.dir, params, batch_first=sc["batch_first"], sort_batch=sc["sort_batch"], on_uneven_distributed=sc["mode"],
+            corp.dir, params, data_params, batch_first=sc["batch_first"], sort_batch=sc["sort_batch"], on_uneven_distributed=sc["mode"],
             file_prefix=sc["prefix"], file_suffix=sc["suffix"], suppress_uttids=sc["suppress_uttids"], tokens_only=sc["tokens_only"], **common,
         )
     if sc["kind"] == "ctx":
         params = data.ContextWindowDataLoaderParams(
             batch_size=sc["batch_size"], drop_last=sc["drop_last"], context_left=sc["left"], context_right=sc["right"], reverse=sc["reverse"],
-            delta_order=sc["delta_order"], do_mvn=sc["do_mvn"],
+            delta_order=sc["delta_order"], do_mvn=sc["do_mvn"], subset_ids=subset,
         )
         return data.ContextWindowDataLoader(
-            corp.dir, params, file_prefix=sc["prefix"], file_suffix=sc["suffix"], suppress_uttids=sc["suppress_uttids"], warn_on_missing=False, **common
+            corp.dir, params, file_prefix=sc["prefix"], file_suffix=sc["suffix"], suppress_uttids=sc["suppress_uttids"], warn_on_missing=False, **stats, **common
         )
     raise HarnessError(sc["kind"])
 
@@ -528,6 +565,9 @@ def execute(sc):
     if kind != "lang" and sc.get("missing"):
         corp.apply_missing()
         res.bump("fault.files_missing_for_some_utterances")
+    if sc.get("subset") and kind != "bare":
+        corp.apply_subset()
+        res.bump("probe.subset_of_the_directory")
     n = len(corp.utts)
     repro = {}
     with warnings.catch_warnings():
